@@ -90,6 +90,26 @@ def survival_oracle(rng, s, n):
     return None, stats
 
 
+def deep_undo_oracle(rng, s, n):
+    """n state-changing commands of the cheap kinds (flag switches, assignments, breakpoints, goto), then n + 2 undo
+    lines: nothing escapes handle_command, however long the history (seed C14j capped the list of command names at 100
+    while the chain of snapshots stayed unbounded: the 101st consecutive undo raised IndexError)."""
+    rs = dc.RealSession(s["text"], s["opts"])
+    if not rs.ok:
+        return None, 0
+    lines = []
+    for i in range(n):
+        lines.append(rng.choice(["on c", "off c", "on z", "off v", "r4 = %d" % (i % 7), "r%d = r4 + 1" % rng.randrange(1, 11),
+                                 "@0x4000 = %d" % i, "goto 0", "break 1", "clear *", "execute NOP()", "assign"]))
+    lines += ["undo"] * (n + 2)
+    for k, line in enumerate(lines):
+        r = rs.command(line, budget=3.0)
+        if r["exc"]:
+            return ("the shell raised %s on line %d (%r) of a session of %d state-changing commands followed by %d undo lines"
+                    % (r["exc"], k + 1, line, n, n + 2)), k
+    return None, len(lines)
+
+
 def finished_counts_oracle():
     """Once the program has finished, a stepping command returns at once, whatever count it is given (seed C14e:
     `next <n>` kept looping n times)."""
@@ -301,6 +321,11 @@ def correspondence(ctx, model_available=True):
         sv["sessions"] += 1
         for k in st:
             sv[k] += st[k]
+        if p:
+            spec_failures.append({"what": p, "session": dp.session_json(s)})
+    for s in dp.make_sessions(rng, 1 if quick else 4, lambda k: dc.RUN_KINDS, sizes=(0, 2)):
+        p, k = deep_undo_oracle(rng, s, rng.choice([105, 130]) if quick else rng.choice([101, 130, 260, 520]))
+        sv["deep_undo_lines"] = sv.get("deep_undo_lines", 0) + k
         if p:
             spec_failures.append({"what": p, "session": dp.session_json(s)})
     for b in finished_counts_oracle():
